@@ -54,11 +54,12 @@ def _clamp(i, n):
     return min(max(i, 0), n)
 
 
-def _step(state, op):
+def _step(state, op, w=None):
     width, rate, samples = state
     s = list(samples)
     n = len(s)
-    w = mkwav(s, width, rate)
+    if w is None:
+        w = mkwav(s, width, rate)
     k = op[0]
     tag = f"{op} on width={width} rate={rate} samples={s}"
     if k == "query":
@@ -160,6 +161,31 @@ def _query(state, w, tag):
     return None, cnt, "query", None, viols
 
 
+def _check_live(case):
+    """op1 then every op2 on ONE live Wav object (a cached duration / index would survive the first edit)"""
+    state0, op1 = case
+    w0 = mkwav(list(state0[2]), state0[0], state0[1])
+    _step(state0, op1, w=w0)
+    if len(w0.frames) % state0[0]:
+        return 1, "misaligned", None, []  # reported by the BFS part
+    state1 = (state0[0], state0[1], tuple(W.unpack(w0.frames, state0[0])))
+    viols = []
+    n = 0
+    for op2 in _ops(state1):
+        if op2[0] in ("del", "rep", "sub") and ((op2[1] * state1[1]) % 1 or (op2[2] * state1[1]) % 1) and op2[1] != op2[2]:
+            continue  # keep the live pass affordable: both ends on sample positions, or an empty stretch
+        w = mkwav(list(state0[2]), state0[0], state0[1])
+        _step(state0, op1, w=w)
+        succ, k, o, nt, v = _step(state1, op2, w=w)
+        n += 1 + k
+        if v:
+            for x in v:
+                x["msg"] = f"after {op1} on a live Wav: " + x["msg"]
+            viols.extend(v)
+            break
+    return n, "ok", (op1[0], state0[0], state0[1]), viols
+
+
 def _prune(state):
     return len(state[2]) > LENCAP
 
@@ -237,6 +263,58 @@ def _check_file(case):
     return cnt, "ok" if not viols else "!", (width, rate, n, min(s) if s else 0, max(s) if s else 0), viols
 
 
+def _check_file_lengths(case):
+    """every recording length at a rate: save -> open must return every sample (frame counts derived from float durations)"""
+    width, rate, n = case
+    s = [((i * 37) % 251) - 125 for i in range(n)] if width == 1 else [((i * 7919) % 65521) - 32760 for i in range(n)]
+    d = scratch_dir()
+    fn = os.path.join(d, "c16-len.wav")
+    viols = []
+    w = mkwav(s, width, rate)
+    st, r, _ = call(w.save, fn)
+    if st == "exc":
+        return 1, "X", None, [Viol("save-raised:" + type(r).__name__, f"width={width} rate={rate} n={n}: {r!r}")]
+    info = W.read_riff(fn)
+    if info["samples"] != s:
+        viols.append(Viol("saved-file-content", f"width={width} rate={rate} n={n}: file holds {len(info['samples'])} samples"))
+    st, w2, _ = call(audio.Wav.open, fn)
+    if st == "exc":
+        viols.append(Viol("open-raised:" + type(w2).__name__, f"width={width} rate={rate} n={n}: {w2!r}"))
+    else:
+        got = W.unpack(w2.frames, width)
+        if got != s:
+            viols.append(Viol("open-content", f"Wav.open after Wav.save, width={width} rate={rate}: {len(got)} of {n} samples came back "
+                                              f"(tail saved {s[-3:]}, got {got[-3:]})"))
+        if not math.isclose(w2.duration, n / rate, rel_tol=1e-12):
+            viols.append(Viol("open-duration", f"width={width} rate={rate} n={n}: duration {w2.duration!r} != {n}/{rate}"))
+    st, q, _ = call(audio.QueryWav, fn)
+    if st == "ok":
+        st, fr, _ = call(q.getFrames)
+        if st == "exc" or W.unpack(fr, width) != s:
+            viols.append(Viol("querywav-whole-file", f"QueryWav.getFrames() width={width} rate={rate} n={n} does not return the whole recording"))
+        if (q.nframes, q.frameRate, q.sampleWidth) != (n, rate, width) or not math.isclose(q.duration, n / rate, rel_tol=1e-12):
+            viols.append(Viol("querywav-params", f"width={width} rate={rate} n={n}: {q.params}"))
+        try:
+            q.audiofile.close()
+        except Exception:
+            pass
+    else:
+        viols.append(Viol("querywav-raised", f"width={width} rate={rate} n={n}: {q!r}"))
+    return 4, "ok", (width, rate, n), viols
+
+
+def _length_cases(quick):
+    rates = (8, 8000, 11025, 16000, 22050, 44100, 48000)
+    top = 128 if quick else 400
+    for rate in rates:
+        for n in range(0, top + 1):
+            yield (2, rate, n)
+    for width in (1, 4):
+        for rate in (44100, 48000, 8000):
+            for n in range(0, top + 1, 1 if not quick else 3):
+                yield (width, rate, n)
+
+
 def _file_cases(quick):
     for width in (1, 2, 4):
         lo, hi = W.value_range(width)
@@ -263,6 +341,14 @@ def parts(tier):
                      "state; list-of-samples model with exact-rational nearest index after every transition; non-trivial = distinct "
                      "(operation, on-grid?, empty stretch?, tie?)" % len(combos),
                 bounds={"depth": depth, "recording_length_cap": LENCAP, "width_rate_pairs": len(combos)}, max_depth=depth, prune=_prune),
+        InputPart("live-sequences", lambda: ((s0, op1) for s0 in [(2, 8, (1, 2, 3, 4, 5)), (1, 44100, (1, 2, 3))]
+                                             for op1 in _ops(s0)), _check_live,
+                  rule="every pair (op1, op2) of edit / query calls on ONE live Wav object for 2 recordings, list model in lock step",
+                  bounds={"sequence_length": 2}, chunk=2),
+        InputPart("file-round-trip-all-lengths", lambda: _length_cases(quick), _check_file_lengths,
+                  rule="EVERY recording length 0..%d at rates {8, 8000, 11025, 16000, 22050, 44100, 48000} (width 2; widths 1 and 4 at three "
+                       "rates): Wav.save read by the independent RIFF reader, Wav.open and QueryWav must return every sample and "
+                       "duration = count / rate" % (128 if quick else 400), bounds={"max_length": 128 if quick else 400}),
         InputPart("file-round-trip", lambda: _file_cases(quick), _check_file,
                   rule="widths {1,2,4} x rates {8,8000,16000,44100} x sample sequences incl. the extremes of the value range: Wav.save read "
                        "by an independent RIFF reader, praatio-written and independently written files opened by Wav.open and QueryWav "
